@@ -1,6 +1,499 @@
-//! C30 — not implemented yet.
-use mc_core::Ctx;
+//! C30 — decompiled manifests compile back to the same manifest.
+//!
+//! Statement: for every transaction, subintent or system manifest, compiling the text produced by the decompiler
+//! yields a manifest identical to the original: same instructions, argument values, blobs, address reservations,
+//! named objects and child subintents.
+//!
+//! Domain (DESIGN O7): manifests that (i) survive manifest_encode/manifest_decode unchanged and (ii) pass the real
+//! `StaticManifestInterpreter` with `ValidationRuleset::all()`. Everything outside is counted as `excluded:*`.
+//!
+//! Bounded-exhaustive enumeration, for each of the 4 kinds (V1, SystemV1, V2, SubintentV2):
+//!  (a) every instruction block (one per instruction variant / alias form / address form; a block creates what it
+//!      consumes and disposes of what it creates) singly and every ordered pair of blocks, under object-name modes
+//!      {unknown, all named, partially named}; SystemV1 additionally under 3 preallocated-address headers;
+//!  (b) every value tree of the stratified space D1 ∪ D2 ∪ D3 as the argument of the generic-argument
+//!      instructions. D1 = every leaf of the manifest leaf alphabet (all ints at min/-1/0/1/max, 26 strings incl.
+//!      quotes, backslash, CR, LF, TAB, NUL, DEL, non-ASCII, U+2028, BOM, `${x}`, combining and bidi characters,
+//!      non-characters; static addresses of 10 entity kinds, named address, bucket, proof, reservation, expressions,
+//!      provided blobs, decimals / precise decimals at extremes, every local-id type at min/max length);
+//!      D2 = every container form over D1 with width <= 2 (tuples, enums with discriminators 0/1/255, arrays of
+//!      every element kind incl. empty ones, maps of every (key kind, value kind) incl. empty ones, duplicate keys;
+//!      pairs are taken over one representative per kind (quick) / two per kind (thorough));
+//!      D3 = every container form over 15 representative depth-2 values with width <= 2 (+ depth-4 spot checks in
+//!      the thorough tier). Instruction forms: CALL_METHOD on all of it; CALL_FUNCTION, the four module calls,
+//!      CALL_DIRECT_VAULT_METHOD, YIELD_TO_PARENT, YIELD_TO_CHILD and three alias forms on all of it (thorough) or
+//!      on D1 + every 5th tree (quick);
+//!  (c) object names that need escaping inside a string literal (reported under their own key);
+//!  (d) invocation arguments that are not a tuple (the decompiler documents an error; informational only).
+//!
+//! Oracle: `compile_any_manifest(decompile_any(m), same kind, same network, same blobs) == m` with the object names
+//! replaced by "known name or the decompiler's default name" for every object (manifest_naming.rs), compared as
+//! whole `AnyManifest`s (instructions, blobs, children, preallocated addresses, names); additionally
+//! `decompile(compiled) == decompile(m)` (idempotent text). A panic of decompile/compile inside the domain is a
+//! violation.
+use crate::mgen::*;
+use crate::minrec::MinRec;
+use crate::with_any;
+use mc_core::{par_range, Ctx, Level, Local};
+use radix_common::prelude::*;
+use radix_engine_interface::blueprints::access_controller::*;
+use radix_engine_interface::blueprints::account::*;
+use radix_engine_interface::blueprints::consensus_manager::*;
+use radix_engine_interface::blueprints::identity::*;
+use radix_engine_interface::blueprints::package::*;
+use radix_engine_interface::blueprints::resource::*;
+use radix_engine_interface::object_modules::metadata::*;
+use radix_engine_interface::object_modules::role_assignment::*;
+use radix_engine_interface::object_modules::royalty::*;
+use radix_transactions::manifest::*;
+use radix_transactions::prelude::*;
+use serde_json::{json, Map};
+use std::collections::HashSet;
+use std::sync::Mutex;
 
-pub fn run(_ctx: Ctx) -> ! {
-    mc_core::machinery_error("C30: not implemented")
+static MIN: MinRec = MinRec::new();
+const SHARDS: usize = 64;
+
+struct Seen {
+    shards: Vec<Mutex<HashSet<u128>>>,
+}
+impl Seen {
+    fn new() -> Seen {
+        Seen { shards: (0..SHARDS).map(|_| Mutex::new(HashSet::new())).collect() }
+    }
+    fn insert(&self, bytes: &[u8]) -> bool {
+        let fp = mc_core::fp128(bytes);
+        let v = u128::from_le_bytes(fp.try_into().unwrap());
+        self.shards[(v as usize) % SHARDS].lock().unwrap().insert(v)
+    }
+    fn len(&self) -> u64 {
+        self.shards.iter().map(|s| s.lock().unwrap().len() as u64).sum()
+    }
+}
+
+fn variant_name<T: core::fmt::Debug>(e: &T) -> String {
+    let s = format!("{e:?}");
+    s.split(|c: char| !(c.is_ascii_alphanumeric() || c == '_')).next().unwrap_or("?").to_string()
+}
+
+fn instruction_idents(m: &AnyManifest) -> Vec<String> {
+    with_any!(m, x => x.get_typed_instructions().iter().map(|i| variant_name(i)).collect())
+}
+
+fn set_names(m: &mut AnyManifest, n: ManifestObjectNames) {
+    match m {
+        AnyManifest::V1(x) => x.object_names = n,
+        AnyManifest::SystemV1(x) => x.object_names = n,
+        AnyManifest::V2(x) => x.object_names = n,
+        AnyManifest::SubintentV2(x) => x.object_names = n,
+    }
+}
+
+fn blobs_of(m: &AnyManifest) -> IndexMap<Hash, Vec<u8>> {
+    match m {
+        AnyManifest::V1(x) => x.blobs.clone(),
+        AnyManifest::SystemV1(x) => x.blobs.clone(),
+        AnyManifest::V2(x) => x.blobs.clone(),
+        AnyManifest::SubintentV2(x) => x.blobs.clone(),
+    }
+}
+
+fn kind_of_any(m: &AnyManifest) -> Kind {
+    match m {
+        AnyManifest::V1(_) => Kind::V1,
+        AnyManifest::SystemV1(_) => Kind::SystemV1,
+        AnyManifest::V2(_) => Kind::V2,
+        AnyManifest::SubintentV2(_) => Kind::SubintentV2,
+    }
+}
+
+/// Object counts as the decompiler / compiler number them, recomputed from the manifest itself (instruction
+/// effects), independent of the generator's bookkeeping.
+fn object_counts(m: &AnyManifest) -> (u32, u32, u32, u32, u32) {
+    let (mut nb, mut np, mut nr, mut na) = (0u32, 0u32, 0u32, 0u32);
+    let (prealloc, children) = match m {
+        AnyManifest::V1(_) => (0, 0),
+        AnyManifest::SystemV1(x) => (x.preallocated_addresses.len() as u32, 0),
+        AnyManifest::V2(x) => (0, x.children.len() as u32),
+        AnyManifest::SubintentV2(x) => (0, x.children.len() as u32),
+    };
+    nr += prealloc;
+    with_any!(m, x => {
+        for e in x.iter_instruction_effects() {
+            match e {
+                ManifestInstructionEffect::CreateBucket { .. } => nb += 1,
+                ManifestInstructionEffect::CreateProof { .. } | ManifestInstructionEffect::CloneProof { .. } => np += 1,
+                ManifestInstructionEffect::CreateAddressAndReservation { .. } => {
+                    nr += 1;
+                    na += 1;
+                }
+                _ => {}
+            }
+        }
+    });
+    (nb, np, nr, na, children)
+}
+
+#[derive(PartialEq, Eq, Debug, Clone, Copy)]
+enum Outcome {
+    Excluded,
+    Ok,
+    Violation,
+    Info,
+}
+
+/// The whole oracle for one manifest.
+fn check_manifest(any: &AnyManifest, label: &str, key_suffix: &str, l: &mut Local, seen: &Seen, net: &NetworkDefinition) -> Outcome {
+    l.eval();
+    let kind = kind_of_any(any);
+    // ---- domain (i): survives manifest SBOR unchanged
+    let enc = match manifest_encode(any) {
+        Ok(e) => e,
+        Err(e) => {
+            l.class(&format!("excluded:not-encodable:{}", variant_name(&e)));
+            return Outcome::Excluded;
+        }
+    };
+    match manifest_decode::<AnyManifest>(&enc) {
+        Ok(d) if &d == any => {}
+        Ok(_) => {
+            l.class("excluded:changed-by-sbor-roundtrip");
+            return Outcome::Excluded;
+        }
+        Err(e) => {
+            l.class(&format!("excluded:not-decodable:{}", variant_name(&e)));
+            return Outcome::Excluded;
+        }
+    }
+    // ---- domain (ii): passes the static validator
+    if let Err(e) = validate_any(any, ValidationRuleset::all()) {
+        l.class(&format!("excluded:static-validation:{}", variant_name(&e)));
+        return Outcome::Excluded;
+    }
+    let fresh = seen.insert(&enc);
+    let case = |text: Option<&str>| json!({"kind": kind.name(), "label": label, "manifest_hex": mc_core::hex(&enc), "decompiled": text});
+    let size = enc.len();
+    // ---- decompile
+    let text = match mc_core::catch(|| decompile_any(any, net)) {
+        Err(p) => {
+            MIN.record(l, format!("decompile-panic:{}{key_suffix}", short_loc()), format!("decompile panicked on a valid manifest: {p}"), size, label, case(None));
+            return Outcome::Violation;
+        }
+        Ok(Err(e)) => {
+            l.info(&format!("decompile-returned-error:{}", variant_name(&e)));
+            l.class("decompile-error(informational)");
+            return Outcome::Info;
+        }
+        Ok(Ok(t)) => t,
+    };
+    // ---- compile back
+    let provider = BlobProvider::new_with_prehashed_blobs(blobs_of(any));
+    let compiled = match mc_core::catch(|| compile_any_manifest(&text, kind.manifest_kind(), net, provider)) {
+        Err(p) => {
+            MIN.record(l, format!("recompile-panic:{}{key_suffix}", short_loc()), format!("compile panicked on decompiler output: {p}"), size, label, case(Some(&text)));
+            return Outcome::Violation;
+        }
+        Ok(Err(e)) => {
+            let (stage, kindname) = match &e {
+                CompileError::LexerError(x) => ("lexer", variant_name(&x.error_kind)),
+                CompileError::ParserError(x) => ("parser", variant_name(&x.error_kind)),
+                CompileError::GeneratorError(x) => ("generator", variant_name(&x.error_kind)),
+            };
+            MIN.record(l, format!("recompile-error:{stage}:{kindname}{key_suffix}"), format!("decompiler output does not compile: {e:?}"), size, label, case(Some(&text)));
+            return Outcome::Violation;
+        }
+        Ok(Ok(m)) => m,
+    };
+    // ---- compare
+    let counts = object_counts(any);
+    let mut expected = any.clone();
+    set_names(&mut expected, ManifestObjectNames::Known(expected_names_after_roundtrip(counts, object_names_of(any))));
+    if compiled != expected {
+        // classify
+        let mut c2 = compiled.clone();
+        set_names(&mut c2, object_names_of(&expected).clone());
+        let what_differs = if c2 == expected {
+            "names".to_string()
+        } else {
+            let a = with_any!(&compiled, x => x.iter_cloned_instructions().collect::<Vec<_>>());
+            let b = with_any!(&expected, x => x.iter_cloned_instructions().collect::<Vec<_>>());
+            let idents = instruction_idents(&expected);
+            if a.len() != b.len() {
+                "instruction-count".to_string()
+            } else if let Some(i) = (0..a.len()).find(|i| a[*i] != b[*i]) {
+                format!("instruction:{}", idents[i])
+            } else {
+                "blobs-children-or-preallocation".to_string()
+            }
+        };
+        MIN.record(
+            l,
+            format!("mismatch:{what_differs}{key_suffix}"),
+            format!("compile(decompile(m)) != m ({what_differs}); expected {:?} got {:?}", expected, compiled),
+            size,
+            label,
+            case(Some(&text)),
+        );
+        return Outcome::Violation;
+    }
+    // ---- idempotent text
+    match mc_core::catch(|| decompile_any(&compiled, net)) {
+        Ok(Ok(t2)) if t2 == text => {}
+        other => {
+            MIN.record(l, format!("text-not-idempotent{key_suffix}"), format!("decompile(compile(decompile(m))) differs from decompile(m): {:?}", other), size, label, case(Some(&text)));
+            return Outcome::Violation;
+        }
+    }
+    if fresh {
+        l.class(&format!("roundtrip-ok:{}", kind.name()));
+    } else {
+        l.class("roundtrip-ok(duplicate-manifest)");
+    }
+    Outcome::Ok
+}
+
+fn short_loc() -> String {
+    let loc = mc_core::last_panic_location();
+    loc.rsplit('/').next().unwrap_or(&loc).to_string()
+}
+
+fn check_parts(mut parts: Parts, names_mode: u8, label: &str, key_suffix: &str, l: &mut Local, seen: &Seen, net: &NetworkDefinition) -> Outcome {
+    let Some(mut any) = assemble(&parts) else {
+        l.eval();
+        l.class("excluded:kind-cannot-express");
+        return Outcome::Excluded;
+    };
+    if names_mode != 0 {
+        parts.names = names_for(object_counts(&any), names_mode);
+        set_names(&mut any, parts.names.clone());
+    }
+    check_manifest(&any, label, key_suffix, l, seen, net)
+}
+
+// ---------------------------------------------------------------------------------------------------------------
+// invocation forms for space (b)
+// ---------------------------------------------------------------------------------------------------------------
+
+const N_FORMS: usize = 12;
+const FORM_NAMES: [&str; N_FORMS] = [
+    "CALL_METHOD",
+    "CALL_FUNCTION",
+    "CALL_ROYALTY_METHOD",
+    "SET_METADATA(alias)",
+    "CALL_ROLE_ASSIGNMENT_METHOD",
+    "RECALL_FROM_VAULT(alias)",
+    "YIELD_TO_PARENT",
+    "YIELD_TO_CHILD",
+    "MINT_FUNGIBLE(alias)",
+    "CREATE_ACCOUNT_ADVANCED(alias)",
+    "CALL_METHOD(two args)",
+    "CALL_METHOD(named address)",
+];
+
+fn apply_form(form: usize, b: &mut B, v: &VT) {
+    let args = |b: &mut B| MV::Tuple { fields: vec![v.materialize(b)] };
+    match form {
+        0 => {
+            let a = args(b);
+            b.call_method(FAUCET, "m", a)
+        }
+        1 => {
+            let a = args(b);
+            b.call_function(FAUCET_PACKAGE, "Bp", "f", a)
+        }
+        2 => {
+            let a = args(b);
+            b.push(CallRoyaltyMethod { address: FAUCET.into(), method_name: "m".into(), args: a })
+        }
+        3 => {
+            let a = args(b);
+            b.push(CallMetadataMethod { address: FAUCET.into(), method_name: METADATA_SET_IDENT.into(), args: a })
+        }
+        4 => {
+            let a = args(b);
+            b.push(CallRoleAssignmentMethod { address: FAUCET.into(), method_name: "m".into(), args: a })
+        }
+        5 => {
+            let a = args(b);
+            b.push(CallDirectVaultMethod { address: some_vault(), method_name: VAULT_RECALL_IDENT.into(), args: a })
+        }
+        6 => {
+            let a = args(b);
+            b.push(YieldToParent { args: a })
+        }
+        7 => {
+            let c = b.child(0);
+            let a = args(b);
+            b.push(YieldToChild { child_index: c, args: a })
+        }
+        8 => {
+            let a = args(b);
+            b.call_method(XRD, FUNGIBLE_RESOURCE_MANAGER_MINT_IDENT, a)
+        }
+        9 => {
+            let a = args(b);
+            b.call_function(ACCOUNT_PACKAGE, ACCOUNT_BLUEPRINT, ACCOUNT_CREATE_ADVANCED_IDENT, a)
+        }
+        10 => {
+            let a1 = v.materialize(b);
+            let a2 = v.materialize(b);
+            b.call_method(FAUCET, "m", MV::Tuple { fields: vec![a1, MV::String { value: "sep".into() }, a2] })
+        }
+        _ => {
+            let (_, addr) = b.allocate(FAUCET_PACKAGE, "Faucet");
+            let a = args(b);
+            b.call_method(ManifestGlobalAddress::Named(addr), "m", a)
+        }
+    }
+}
+
+// ---------------------------------------------------------------------------------------------------------------
+
+pub fn run(ctx: Ctx) -> ! {
+    let net = NetworkDefinition::simulator();
+    let seen = Seen::new();
+    if let Some(case) = ctx.read_replay_case() {
+        let mut l = Local::new();
+        let hexs = case.get("manifest_hex").and_then(|x| x.as_str()).unwrap_or("");
+        match manifest_decode::<AnyManifest>(&mc_core::unhex(hexs)) {
+            Ok(any) => {
+                println!("replaying manifest: {:#?}", any);
+                match decompile_any(&any, &net) {
+                    Ok(t) => println!("decompiled text:\n{t}"),
+                    Err(e) => println!("decompile error: {e:?}"),
+                }
+                let o = check_manifest(&any, "replay", "", &mut l, &seen, &net);
+                println!("outcome: {o:?}");
+            }
+            Err(e) => mc_core::machinery_error(&format!("replay manifest does not decode: {e:?}")),
+        }
+        ctx.merge(l);
+        MIN.flush(&ctx);
+        ctx.finish(Level::Exploration, "replay", 0, false, Map::new(), &[]);
+    }
+    let thorough = !ctx.quick();
+    let mut cov = Map::new();
+
+    // ---------------- (a) blocks singly and in ordered pairs
+    let blocks = blocks();
+    let prealloc = preallocation_variants();
+    let nblocks = blocks.len() as u64;
+    let name_modes: &[u8] = &[0, 1, 2];
+    let n_a = nblocks + nblocks * nblocks;
+    par_range(&ctx, n_a, 64, |i, l| {
+        let (first, second) = if i < nblocks { (i as usize, None) } else { (((i - nblocks) / nblocks) as usize, Some(((i - nblocks) % nblocks) as usize)) };
+        for kind in KINDS {
+            let pre_variants = if kind == Kind::SystemV1 { prealloc.len() } else { 1 };
+            for pv in 0..pre_variants {
+                let mut b = B::new(kind);
+                for (pkg, bp, addr) in &prealloc[pv] {
+                    b.preallocate(*pkg, bp, *addr);
+                }
+                (blocks[first].apply)(&mut b);
+                if let Some(s) = second {
+                    (blocks[s].apply)(&mut b);
+                }
+                let parts = b.finish();
+                let label = match second {
+                    None => format!("a:{}|prealloc#{pv}", blocks[first].name),
+                    Some(s) => format!("a:{} ; {}|prealloc#{pv}", blocks[first].name, blocks[s].name),
+                };
+                for &nm in name_modes {
+                    let o = check_parts(parts.clone(), nm, &format!("{label}|names#{nm}"), "", l, &seen, &net);
+                    if o == Outcome::Excluded {
+                        break; // exclusion does not depend on names
+                    }
+                    if i % 997 == 3 && nm == 1 && kind == Kind::V2 {
+                        l.sample(|| json!({"space": "a", "label": label, "kind": kind.name()}));
+                    }
+                }
+            }
+        }
+    });
+    cov.insert("a_blocks".into(), json!({"blocks": nblocks, "singles_plus_ordered_pairs": n_a, "kinds": 4, "name_modes": name_modes.len(), "system_preallocation_headers": prealloc.len()}));
+    eprintln!("[C30] (a) done at {:.1}s", ctx.elapsed_s());
+
+    // ---------------- (b) value trees through the generic-argument instructions
+    let space = value_trees(thorough);
+    let (n1, n2, n3) = (space.d1.len(), space.d2.len(), space.d3.len());
+    let all: Vec<&VT> = space.d1.iter().chain(space.d2.iter()).chain(space.d3.iter()).collect();
+    let n_b = all.len() as u64;
+    par_range(&ctx, n_b, 16, |i, l| {
+        let v = all[i as usize];
+        for form in 0..N_FORMS {
+            let in_reduced = (i as usize) < n1 || i % 5 == 0;
+            if form != 0 && !thorough && !in_reduced {
+                continue;
+            }
+            for kind in KINDS {
+                let mut b = B::new(kind);
+                apply_form(form, &mut b, v);
+                let parts = b.finish();
+                let label = format!("b:{}({:?})", FORM_NAMES[form], v);
+                let label = mc_core::truncate(&label, 300);
+                let modes: &[u8] = if thorough || (i as usize) < n1 { &[0, 1] } else { &[(i % 2) as u8] };
+                for &nm in modes {
+                    let o = check_parts(parts.clone(), nm, &label, "", l, &seen, &net);
+                    if o == Outcome::Excluded {
+                        break;
+                    }
+                }
+                if i % 1013 == 5 && form == 0 && kind == Kind::V1 {
+                    l.sample(|| json!({"space": "b", "label": label}));
+                }
+            }
+        }
+    });
+    cov.insert("b_value_trees".into(), json!({"depth1_leaves": n1, "depth2": n2, "depth3_plus": n3, "forms": FORM_NAMES, "forms_on_full_set": if thorough { N_FORMS } else { 1 }}));
+    eprintln!("[C30] (b) done at {:.1}s", ctx.elapsed_s());
+
+    // ---------------- (c) object names that need escaping
+    par_range(&ctx, nblocks, 8, |i, l| {
+        for kind in KINDS {
+            let mut b = B::new(kind);
+            if kind == Kind::SystemV1 {
+                for (pkg, bp, addr) in &prealloc[1] {
+                    b.preallocate(*pkg, bp, *addr);
+                }
+            }
+            (blocks[i as usize].apply)(&mut b);
+            let parts = b.finish();
+            let Some(any) = assemble(&parts) else { continue };
+            let c = object_counts(&any);
+            if c == (0, 0, 0, 0, 0) {
+                continue;
+            }
+            check_parts(parts, 3, &format!("c:{}|names#3", blocks[i as usize].name), ":names-needing-escapes", l, &seen, &net);
+        }
+    });
+    eprintln!("[C30] (c) done at {:.1}s", ctx.elapsed_s());
+
+    // ---------------- (d) non-tuple invocation arguments (informational)
+    {
+        let mut l = Local::new();
+        for kind in KINDS {
+            for args in [MV::U8 { value: 1 }, MV::String { value: "x".into() }, MV::Array { element_value_kind: MVK::U8, elements: vec![] }, MV::Enum { discriminator: 0, fields: vec![] }] {
+                let mut b = B::new(kind);
+                b.call_method(FAUCET, "m", args);
+                let parts = b.finish();
+                check_parts(parts, 0, "d:non-tuple-args", ":non-tuple-args", &mut l, &seen, &net);
+            }
+        }
+        ctx.merge(l);
+    }
+
+    MIN.flush(&ctx);
+    let nontrivial = seen.len();
+    ctx.finish(
+        Level::Exploration,
+        "a case = one manifest (kind x instructions x blobs x children x preallocation x names); evaluations count generated manifests incl. excluded ones; non-trivial = distinct manifests (by SBOR encoding) inside the domain (survive manifest SBOR unchanged and pass StaticManifestInterpreter with ValidationRuleset::all()), each decompiled, recompiled and compared",
+        nontrivial,
+        true,
+        cov,
+        &[
+            "network = simulator; blobs provided to the compiler = the manifest's own blobs",
+            "domain filter (ii) uses the real static validator (DESIGN O7)",
+            "value trees: stratified depth<=3/width<=2 space, not the full product (full product over ~110 leaves is ~10^8 per container form)",
+        ],
+    )
 }
